@@ -1,6 +1,6 @@
 import Ptk.Proto
 import Ptk.Gen.PyChars
-import Ptk.Model.C09
+import Ptk.Model.C09Vi
 open Ptk Ptk.Py Ptk.Proto Ptk.C09
 
 /-! Line-protocol driver for the C09 model (kill ring, Emacs kill/yank commands, paste). -/
@@ -35,6 +35,45 @@ def decRing : Nat → List String → Option Ring
 structure DS where
   e : St
   max : Nat
+  v : VSt
+
+/-- insertion sort of the register list by name (the harness prints the dict sorted) -/
+def insReg (p : Char × Clip) : List (Char × Clip) → List (Char × Clip)
+  | [] => [p]
+  | q :: qs => if p.1.toNat ≤ q.1.toNat then p :: q :: qs else q :: insReg p qs
+
+def encRegs (regs : List (Char × Clip)) : String :=
+  let sorted := regs.foldr insReg []
+  toString sorted.length ++ sorted.foldl
+    (fun acc p => acc ++ " " ++ toString p.1.toNat ++ " " ++ encTy p.2.ty ++ " " ++ encStr p.2.text) ""
+
+def encVSt (s : VSt) : String :=
+  s!"{encStr s.buf.text} {s.buf.cur} {encRing s.ring} {encRegs s.regs}"
+
+def decCount (s : String) : Option (Option Nat) :=
+  if s == "N" then some none else (decNat s).map some
+
+def decAct (s : String) : Option VisAct :=
+  if s == "x" then some .x else if s == "y" then some .y else if s == "d" then some .d else none
+
+def decReg (s : String) : Option (Option Char) :=
+  if s == "N" then some none else (decNat s).map fun n => some (Char.ofNat n)
+
+def parseVCmd : List String → Option VCmd
+  | ["x"] => some .x
+  | ["X"] => some .X
+  | ["s"] => some .s
+  | ["D"] => some .D
+  | ["C"] => some .C
+  | ["dd"] => some .dd
+  | ["yy"] => some .yy
+  | ["p"] => some .p
+  | ["P"] => some .P
+  | ["rp", c, b] => do pure (.regP (Char.ofNat (← decNat c)) (← decBool b))
+  | ["goto", n] => do pure (.goto (← decNat n))
+  | ["vis", ty, a, b, act, reg] => do
+    pure (.vis (← decTy ty) (← decNat a) (← decNat b) (← decAct act) (← decReg reg))
+  | _ => none
 
 def encSt (s : St) : String :=
   s!"{encStr s.buf.text} {s.buf.cur} {encRing s.ring} {encDbp s.dbp}"
@@ -71,6 +110,21 @@ def stepLine (ds : DS) (toks : List String) : DS × String :=
       let s := step Gen.reSpace ds.max ds.e a cmd
       ({ ds with e := s }, encSt s)
     | _, _ => (ds, "bad-op")
+  | "vinit" :: t :: c :: m :: n :: rest =>
+    match decStr t, decNat c, decNat m, decNat n with
+    | some t, some c, some m, some n =>
+      match decRing n rest with
+      | some r =>
+        let s : VSt := { buf := { text := t, cur := c }, ring := r, regs := [] }
+        ({ ds with v := s, max := m }, encVSt s)
+      | none => (ds, "bad-op")
+    | _, _, _, _ => (ds, "bad-op")
+  | "v" :: a :: rest =>
+    match decCount a, parseVCmd rest with
+    | some a, some cmd =>
+      let s := vstep ds.max ds.v a cmd
+      ({ ds with v := s }, encVSt s)
+    | _, _ => (ds, "bad-op")
   | ["paste", t, c, ty, d, mode, count] =>
     match decStr t, decNat c, decTy ty, decStr d, decMode mode, decInt count with
     | some t, some c, some ty, some d, some mode, some count =>
@@ -93,4 +147,5 @@ def stepLine (ds : DS) (toks : List String) : DS × String :=
   | _ => (ds, "bad-op")
 
 def main : IO Unit :=
-  runS stepLine { e := { buf := { text := [], cur := 0 }, ring := [], dbp := none, prev := .other }, max := 60 }
+  runS stepLine { e := { buf := { text := [], cur := 0 }, ring := [], dbp := none, prev := .other }, max := 60,
+                  v := { buf := { text := [], cur := 0 }, ring := [], regs := [] } }
